@@ -55,6 +55,15 @@ def run(out, tier, seed):
         for kind in ("cycle_head", "cycle_mid", "no_rest", "two_rest", "no_first"):
             evs = [{"op": "new", "items": st}, {"op": "corrupt", "kind": kind}] + READS(len(st), members)
             jobs.append({"cfg": {"vocab": "plain"}, "events": evs})
+    # negative indexes count from the end, as for a Python list: reads, writes and deletions at -1, -2, -len, -len-1
+    for st in starts[1:]:
+        n = len(st)
+        for neg in (-1, -2, -n, -n - 1):
+            for kind in ("getitem", "setitem", "delitem"):
+                ev = {"op": kind, "i": neg}
+                if kind == "setitem":
+                    ev["x"] = "m1"
+                jobs.append({"cfg": {"vocab": ["plain", "falsy"][n % 2], "head": "bnode", "sibling": False}, "events": [{"op": "new", "items": st, "how": "ctor"}, ev] + READS(n + 1, members)})
     rng = random.Random(seed)
     M = ["m1", "m2", "m3", "z"]
     for i in range(400 if quick else 5000):
